@@ -328,6 +328,46 @@ func propC20(c *ctx) error {
 			sort.Strings(ks)
 			return strings.Join(ks, "\n")
 		}
+		// ---- correspondence with the Lean extraction model (XT.extractMany / XT.catalogue) over the same blocks
+		if c.d != nil {
+			var blocks []string
+			for _, f := range rcFiles {
+				for _, line := range strings.Split(f[1], "\n") {
+					if i := strings.Index(line, "${"); i >= 0 {
+						blocks = append(blocks, line[i+2:strings.LastIndex(line, "}\">")])
+					}
+				}
+			}
+			flag := kwFlag
+			if flag == "" {
+				flag = "T;N:1,2;N64:1,2;X:1c,2;XN:1c,2,3;XN64:1c,2,3;__;_n:1,2;_x:1c,2;_xn:1c,2,3"
+			}
+			m, err := c.d.ask(J{"op": "xtpl", "keywords": flag, "blocks": blocks})
+			if err != nil {
+				return err
+			}
+			if sget(m, "r") == "ok" {
+				res.S2Compared++
+				var mrows []string
+				for _, row := range m["rows"].([]any) {
+					r4 := row.([]any)
+					mrows = append(mrows, fmt.Sprintf("%q|%q|%v", r4[0], r4[1], r4[3]))
+				}
+				var grows []string
+				for _, e := range got {
+					if !e.Header {
+						grows = append(grows, fmt.Sprintf("%q|%q|%d", e.Ctx, e.ID, len(e.Refs)))
+					}
+				}
+				sort.Strings(mrows)
+				sort.Strings(grows)
+				if strings.Join(mrows, "\n") != strings.Join(grows, "\n") {
+					res.disagree(cs, grows, mrows, "xtpl catalogue vs extraction model")
+				}
+			} else {
+				res.S2Unsupported++
+			}
+		}
 		if !header {
 			res.violate(cs, "header entry present", trunc(string(bs), 300), "the catalogue lost its header entry")
 		} else if canon(wantMap, false) != canon(gotMap, false) {
